@@ -132,6 +132,7 @@ fn main() {
     let tr = run.ev.coverage.get("transitions").cloned().unwrap_or(json!(0));
     run.ev.set("traces_validated_against_impl", tr);
     run.ev.set("exhaustive", json!(closed));
+    run.ev.set("real_rand_conformance", json!(std::env::var("VERIF_MCREAL_SUMMARY").unwrap_or_else(|_| "not run (binary invoked without run.sh)".into())));
     run.ev.set("samples", json!([{"k": 2, "adds": 10, "rng_per_add": [[], [], [1], [3], [0], [2], [5], [1], [1, 40], []], "checked": "len = min(n,k), items are distinct stream positions < n, prefix while n <= k, i() = n, is_empty() false"}]));
     run.ev.set("rule", json!("BFS over (reservoir positions, i, skip_until capped at the horizon) for n up to the horizon; every add is executed once per RNG outcome: every value of every integer draw, unit draws from an 78-value alphabet (extremes 0, 2^-52, 1-2^-52, dyadic points, 64-point grid)"));
     run.ev.assume("unit alphabet contains only values the real generator can return (multiples of 2^-52 in [0,1)); raw-word behaviour of the real rand crate is covered by mc-real");
